@@ -6,6 +6,7 @@ import (
 	"go/token"
 	"go/types"
 	"math"
+	"math/big"
 
 	"golang.org/x/tools/go/ssa"
 )
@@ -14,7 +15,7 @@ func init() {
 	props["C10"] = &propInfo{Level: "other", Explanation: "Decides structural necessary conditions of 'exact inverses, no silent truncation': (R10.1) every narrowing integer conversion in internal/decode (int64->int32/int16, int32->int16, uint64->uint32/uint16, uint32->uint16) is proved value-preserving by the bounds engine from the range guards that dominate it - a missing, off-by-one or wrap-prone guard leaves the obligation undischarged; (R10.2) the float64->float32 narrowing is reached only through magnitude guards that let exactly the infinities through: on every path the value is either within +-MaxFloat32 or math.IsInf with the matching sign was true, and both infinity paths do reach the conversion (IEEE: +Inf > MaxFloat32, so a guard without the exemption rejects a representable value); (R10.3) per scalar encoder the returned size equals the bytes grown and the type byte written is the type's own code. Not decided: value-level inversion over the whole domains; the varint arithmetic of the dependency.",
 		Trusted: []string{"bounds engine (see C02)", "math.IsInf(f, sign) semantics"}}
 
-	register(&Rule{ID: "R10.1", Props: []string{"C10"}, Floor: 4,
+	register(&Rule{ID: "R10.1", Props: []string{"C10", "C08"}, Floor: 4,
 		Doc: "guarded narrowing: every narrowing integer Convert in internal/decode is proved in range of the target type",
 		Run: runR10_1})
 	register(&Rule{ID: "R10.2", Props: []string{"C10"}, Floor: 1,
@@ -24,17 +25,22 @@ func init() {
 
 // narrowing conversions that are safe for a reason outside the function (one line each)
 var r10Reviewed = map[string]string{
-	"internal/encode.EncodeListTable/narrow-int-to-uint32#1":    "dataSize is end-start of the writer's list entry (>= 0: the buffer only grows while the list is open, R12.7 I2) and was checked against MaxSize above",
-	"internal/encode.EncodeListTable/narrow-int-to-uint32#2":    "tableSize is the size returned by encodeListTable = len(table)*entry size >= 0, bounded by MaxSize there",
-	"internal/encode.EncodeMessageTable/narrow-int-to-uint32#1": "dataSize is end-start of the writer's message entry (>= 0, R12.7 I2), checked against MaxSize above",
-	"internal/encode.EncodeMessageTable/narrow-int-to-uint32#2": "tableSize is the size returned by encodeMessageTable = len(table)*entry size >= 0, bounded by MaxSize there",
-	"internal/encode.EncodeStruct/narrow-int-to-uint32#1":       "dataSize is the sum of the sizes reported by the field encoders (each >= 0, R10.3), checked against MaxSize above",
-	"internal/encode.encodeListTable/narrow-uint32-to-uint16#1": "small table form: chosen by format.IsBigList == false, i.e. every offset <= 65535 (R08.2)",
-	"internal/encode.encodeMessageTable/narrow-uint16-to-byte#1":  "small table form: chosen by format.IsBigMessage == false, i.e. every tag <= 255 (R08.2)",
+	"internal/encode.EncodeListTable/narrow-int-to-uint32#1":       "dataSize is end-start of the writer's list entry (>= 0: the buffer only grows while the list is open, R12.7 I2) and was checked against MaxSize above",
+	"internal/encode.EncodeListTable/narrow-int-to-uint32#2":       "tableSize is the size returned by encodeListTable = len(table)*entry size >= 0, bounded by MaxSize there",
+	"internal/encode.EncodeMessageTable/narrow-int-to-uint32#1":    "dataSize is end-start of the writer's message entry (>= 0, R12.7 I2), checked against MaxSize above",
+	"internal/encode.EncodeMessageTable/narrow-int-to-uint32#2":    "tableSize is the size returned by encodeMessageTable = len(table)*entry size >= 0, bounded by MaxSize there",
+	"internal/encode.EncodeStruct/narrow-int-to-uint32#1":          "dataSize is the sum of the sizes reported by the field encoders (each >= 0, R10.3), checked against MaxSize above",
+	"internal/encode.encodeListTable/narrow-uint32-to-uint16#1":    "small table form: chosen by format.IsBigList == false, i.e. every offset <= 65535 (R08.2)",
+	"internal/encode.encodeMessageTable/narrow-uint16-to-byte#1":   "small table form: chosen by format.IsBigMessage == false, i.e. every tag <= 255 (R08.2)",
 	"internal/encode.encodeMessageTable/narrow-uint32-to-uint16#2": "small table form: chosen by format.IsBigMessage == false, i.e. every offset <= 65535 (R08.2)",
 }
 
-func runR10_1(c *Ctx, r *R) {
+func runR10_1(c *Ctx, outer *R) {
+	// registered for C10 and C08: the no-truncation obligations are C10's; "both extreme values are read back"
+	// is also C08's (reference-encoded bytes are read back identically)
+	r := &R{c: c, rule: &Rule{ID: outer.rule.ID, Props: []string{"C10"}}}
+	rFull := &R{c: c, rule: &Rule{ID: outer.rule.ID, Props: []string{"C10", "C08"}}}
+	defer func() { outer.n += r.n + rFull.n }()
 	e := newBE(c)
 	var fns []*ssa.Function
 	fns = append(fns, c.SrcFuncs("internal/decode")...)
@@ -67,6 +73,22 @@ func runR10_1(c *Ctx, r *R) {
 			ok2 := fc.proveAt(leq(x, linBig(thi)), cv, 5)
 			if ok1 && ok2 {
 				r.OK(key, cv.Pos(), "value proved within [%s, %s] by the dominating range guards", tlo, thi)
+				// exactness: when the narrowed value is what the decoder returns, the guards must not be tighter
+				// than the target type - its smallest and largest value are stored values like any other
+				if returnedAsValue(cv) {
+					key2 := fmt.Sprintf("%s/full-range-%s-to-%s#%d", fnKey(fn), cv.X.Type(), cv.Type(), n)
+					one := big.NewInt(1)
+					cutLo := fc.proveAt(geq(x, linBig(new(big.Int).Add(tlo, one))), cv, 5)
+					cutHi := fc.proveAt(leq(x, linBig(new(big.Int).Sub(thi, one))), cv, 5)
+					switch {
+					case cutLo:
+						rFull.Bad(key2, cv.Pos(), "the range guards exclude %s, the smallest value of %s: a stored value that fits the requested width is rejected as overflow (the encoder writes it, the decoder cannot read it back)", tlo, cv.Type())
+					case cutHi:
+						rFull.Bad(key2, cv.Pos(), "the range guards exclude %s, the largest value of %s: a stored value that fits the requested width is rejected as overflow", thi, cv.Type())
+					default:
+						rFull.OK(key2, cv.Pos(), "both extreme values of %s pass the guards", cv.Type())
+					}
+				}
 			} else if why := r10Reviewed[key]; why != "" {
 				r.OK(key, cv.Pos(), "reviewed: %s", why)
 			} else {
@@ -197,4 +219,30 @@ func runR10_2(c *Ctx, r *R) {
 			}
 		})
 	}
+}
+
+// returnedAsValue: the converted value is (through phis) result 0 of a function whose result 0 has that type.
+func returnedAsValue(cv *ssa.Convert) bool {
+	seen := map[ssa.Value]bool{}
+	var walk func(v ssa.Value) bool
+	walk = func(v ssa.Value) bool {
+		if seen[v] {
+			return false
+		}
+		seen[v] = true
+		for _, u := range users(v) {
+			switch x := u.(type) {
+			case *ssa.Return:
+				if len(x.Results) > 0 && x.Results[0] == v {
+					return true
+				}
+			case *ssa.Phi:
+				if walk(x) {
+					return true
+				}
+			}
+		}
+		return false
+	}
+	return walk(cv)
 }
